@@ -26,12 +26,12 @@ var (
 	tUnit   = &ltype{k: "Unit"}
 )
 
-func tVar(n string) *ltype       { return &ltype{k: "var", name: n} }
-func tList(a *ltype) *ltype      { return &ltype{k: "List", a: a} }
-func tSet(a *ltype) *ltype       { return &ltype{k: "Set", a: a} }
-func tProd(a, b *ltype) *ltype   { return &ltype{k: "Prod", a: a, b: b} }
-func tOption(a *ltype) *ltype    { return &ltype{k: "Option", a: a} }
-func tNotif(a *ltype) *ltype     { return &ltype{k: "Notif", a: a} }
+func tVar(n string) *ltype     { return &ltype{k: "var", name: n} }
+func tList(a *ltype) *ltype    { return &ltype{k: "List", a: a} }
+func tSet(a *ltype) *ltype     { return &ltype{k: "Set", a: a} }
+func tProd(a, b *ltype) *ltype { return &ltype{k: "Prod", a: a, b: b} }
+func tOption(a *ltype) *ltype  { return &ltype{k: "Option", a: a} }
+func tNotif(a *ltype) *ltype   { return &ltype{k: "Notif", a: a} }
 func tProdN(ts []*ltype) *ltype {
 	if len(ts) == 0 {
 		return tUnit
@@ -93,31 +93,31 @@ func sameType(a, b *ltype) bool {
 
 type expr interface{}
 
-type eAtom struct{ s string }                 // identifier or literal
-type eApp struct {                            // f a b
+type eAtom struct{ s string } // identifier or literal
+type eApp struct {            // f a b
 	f    expr
 	args []expr
 }
-type eProj struct {                           // x.1, x.2.1 …
+type eProj struct { // x.1, x.2.1 …
 	x    expr
 	path string
 }
-type eBin struct {                            // infix
+type eBin struct { // infix
 	op   string
 	l, r expr
 }
-type eNot struct {                            // !x (Bool) or ¬ x (Prop)
+type eNot struct { // !x (Bool) or ¬ x (Prop)
 	x    expr
 	prop bool
 }
-type eTuple struct{ xs []expr }               // (a, b)
-type eList struct{ xs []expr }                // [a, b]
-type eCast struct {                           // (x : T)
+type eTuple struct{ xs []expr } // (a, b)
+type eList struct{ xs []expr }  // [a, b]
+type eCast struct {             // (x : T)
 	x  expr
 	ty string
 }
-type eDecide struct{ x expr }                 // decide (p)
-type eField struct {                          // x.length
+type eDecide struct{ x expr } // decide (p)
+type eField struct {          // x.length
 	x expr
 	f string
 }
@@ -268,9 +268,9 @@ func toBool(v val) val {
 
 // one segment of an emission list
 type seg struct {
-	kind  string // next | error | complete | map
-	ctx   expr
-	arg   expr // value / error; for map: the list that is mapped
+	kind string // next | error | complete | map
+	ctx  expr
+	arg  expr // value / error; for map: the list that is mapped
 }
 
 type tree interface{}
